@@ -40,4 +40,14 @@ CHECKS["C02"] = dict(
    text="Held on the sampled parameter sets/times: fronts located on the returned fields by bisection (at t and t -/+ dt), one-sided states read next to them, mass/momentum/energy jumps normalised by the summed term magnitudes; contacts, SDRZ flux constancy on table nodes, Mader CJ state, EHEP detonation front (with CJ heat release), Guderley incoming/reflected shocks and every other discontinuity in its density, RMTV isothermal shock. Sampling, not proof; Cog20's shock and Guderley's inner-core breakdown are listed known findings.",
    design_ref="5/C02", note=_T + "; tolerance classes per solver (closed form 1e-8 ... interpolating 1e-4) with the measured accuracy of each solver's root finder",
    technique="jump-condition monitor over recorded public calls (discontinuity locator + Rankine-Hugoniot oracle)")
+CHECKS["C07"] = dict(
+   text="Held on the sampled common parameter sets: IGEOS vs GenEOS (fields, wave speeds, pattern), Noh vs Cog19 vs black-box Noh, Noh2 vs Noh2Cog vs Cog1, all 64 constructible geometry wrappers vs their general class, sandwiches vs rod, rod BC3 vs mirrored BC4, Kenamond 2-D vs 3-D. Sampling, not proof; NohBlackBoxEos ignoring its geometry keyword is a listed known finding.",
+   design_ref="5/C07", note=_T, technique="differential monitor on pairs of recorded public calls (independent routes)")
+CHECKS["C08"] = dict(
+   text="Held on the sampled (parameters, scale factors) pairs for 31 solver classes: every input multiplied according to its dimension vector, every output compared with its own scale factor times the original. Sampling, not proof; known findings: Riemann absolute bisect tolerance at tiny pressure numbers, Cog20 shock location of dimension length x time.",
+   design_ref="5/C08", note=_T + "; dimension table DIMS in rtm/props/c08.py; Noh2/Guderley have hard-wired time units",
+   technique="metamorphic relation monitor (unit rescaling) on pairs of recorded public calls")
+CHECKS["C10"] = dict(
+   text="Held on the sampled parameters/time ratios/similarity coordinates: x/t similarity (both Riemann solvers, Noh, Cog19, EHEP region I, Mader with scaled cell grid), Sedov exponents on node-aligned grids, Guderley power-law prefactors and lambda read back from the solver's two-point ratios. Sampling, not proof.",
+   design_ref="5/C10", note=_T, technique="metamorphic relation monitor (similarity map) on pairs of recorded public calls")
 NOT_YET = {}
